@@ -66,8 +66,17 @@ def radiogenics(b):
     fr, ex, paths = run_fragment(b, fn, loop.body, "step", dict(total_specific_heating=S, mass_frac=f, concentration=c, halflife=tau,
                                                               heat_production_rate=q, time=t, ref_time=tref), prek, globals_env=genv)
     if paths:
+        # a `continue` ends the iteration like falling off the end of the body: the invariant must hold there too
+        for p_ in paths:
+            if p_.outcome == "continue":
+                p_.outcome = "return"
         ensure(b, fr, "invariant_step", paths, lambda p: sp.Eq(p.env["total_specific_heating"], S + term), prek,
-               clause="invariant step: total' == total + f_k c_k q_k exp(ln(1/2) (t - t_ref)/tau_k)")
+               clause="invariant step: total' == total + f_k c_k q_k exp(ln(1/2) (t - t_ref)/tau_k) (also on iterations ended by `continue`)")
+        # an early `break` drops every later isotope: with a generic table that breaks the postcondition, so such a path must be infeasible
+        for i_, p_ in enumerate(paths):
+            if p_.outcome == "break":
+                b.add(Obligation(oid=f"{fr.key}::no_early_exit@path{i_}", fn=fr.key, clause="the isotope loop is never left early (a `break` would drop the contributions of all later isotopes): the path must be infeasible",
+                                 goal=sp.false, hyps=list(prek) + p_.hyps, meta=dict(path_condition=[str(c_) for c_ in p_.pc])))
     # exit: heating = total * mass
     fr, ex, paths = run_fragment(b, fn, post_stmts, "exit", dict(total_specific_heating=S, mass=mass), [], globals_env=genv)
     if paths:
@@ -228,6 +237,7 @@ def melting(b):
             relate_runs(b, fn, "viscosity_nonincreasing_in_melt", "ensures viscosity(m1) >= viscosity(m2) for m1 <= m2", p1, p2,
                         lambda pa, pb: sp.Ge(pa.value[0], pb.value[0]), pre + pre2 + [sp.Le(m, m2)])
     b.replayer(f"{FM}::henning::ensures:liquid_beyond_window*", _replay_henning)
+    b.replayer("*", _replay_c19)
     # spohn
     args = dict(melt_fraction=m, temperature=Tm, liquid_viscosity=eta_l, liquid_shear=mu_l, fs_visc_power_slope=R("fs_visc_power_slope"),
                 fs_visc_power_phase=R("fs_visc_power_phase"), fs_shear_power_slope=R("fs_shear_power_slope"), fs_shear_power_phase=R("fs_shear_power_phase"))
@@ -255,4 +265,62 @@ def _replay_henning(ob, res):
         rec["confirmed"] = not (abs(v[0] - 1.0) < 1e-12 and abs(v[1] - 1e-5) < 1e-17)
     except Exception:
         rec["confirmed"] = False
+    return rec
+
+
+_C19_NATIVE = r'''
+import numpy as np
+fails = []
+# radiogenics: independent contributions, also with switched-off entries
+from TidalPy.radiogenics.radiogenic_models import isotope
+LOG_HALF = np.log(0.5)
+mf = (1.0, 0.9928, 0.0071, 0.9998, 1.19e-4); hl = (103., 4470., 704., 14000., 1250.); hp = (0.3583, 9.46e-5, 5.69e-4, 2.64e-5, 2.92e-5); cc = (5.0e-7, 20.3e-9, 20.3e-9, 79.5e-9, 240.e-6)
+for tm in (4000., 4600.):
+    for off in (None, 0, 2, 4):
+        c = tuple(0. if i == off else x for i, x in enumerate(cc))
+        got = isotope(tm, 1.0e22, mf, c, hl, hp, 4600.)
+        want = 1.0e22 * sum(f * x * q * np.exp(LOG_HALF * (tm - 4600.) / t_) for f, x, t_, q in zip(mf, c, hl, hp))
+        if not np.isclose(got, want, rtol=1e-10): fails.append(["isotope", "time %g, isotope %s switched off: %r != %r" % (tm, off, float(got), float(want))])
+# cooling: positive, at least conduction, monotone
+from TidalPy.cooling.cooling_models import convection, conduction
+for L in (1., 12.5, 49.9, 50., 75., 5.0e3, 4.0e5):
+    for eta in (1.0e14, 1.0e18, 1.0e22, 1.0e26):
+        prev = None
+        for dT in (0.5, 10., 200., 1500.):
+            f = float(convection(dT, eta, 3.75, 3.0e-6, 5.2e-5, L, 1.5, 3300., 1., 1. / 3., 1100.)[0]); c = float(conduction(dT, 3.75, L)[0])
+            if f <= 0 or f < c * (1 - 1e-12): fails.append(["convection", "L=%g eta=%g dT=%g: convective %g < conductive %g" % (L, eta, dT, f, c)])
+            if prev is not None and f < prev: fails.append(["convection", "L=%g eta=%g: flux decreases with dT" % (L, eta)])
+            prev = f
+# viscosity: non-increasing in temperature (also very cold material)
+from TidalPy.rheology.viscosity.viscosity_models import reference, arrhenius
+for E, Tref in ((3.0e5, 1600.), (6.0e4, 270.)):
+    Ts = np.asarray([5., 9., 20., 45., 49., 52., 80., 150., 400., 900., 1600., 2000.])
+    v = np.asarray([float(reference(float(T_), 0., 1.0e22, Tref, E, 0.)) for T_ in Ts])
+    if np.any(np.diff(v) > 0): fails.append(["reference", "E=%g: viscosity increases with temperature: %r" % (E, v.tolist())])
+# partial melt: floors, liquid beyond the window, viscosity non-increasing in melt fraction
+from TidalPy.rheology.partial_melt.melting_models import henning
+melt = np.linspace(0., 1., 201); sol, liq = 1600., 2000.
+ones = np.ones_like(melt)
+visc, shear = henning(melt, sol + melt * (liq - sol), 1.0e22 * ones, 1.0 * ones, 6.0e10 * ones, sol, liq, 1.0e-5, 0.5, 0.05, 13.5, 370., 40000., 25., 700.)
+if np.any(np.diff(visc) > 0): fails.append(["henning", "viscosity increases with melt fraction near %g" % float(melt[1:][np.diff(visc) > 0][0])])
+if np.any(visc < 1.0) or np.any(shear < 1.0e-5): fails.append(["henning", "below the liquid values"])
+if np.any(visc[melt > 0.5501] != 1.0) or np.any(shear[melt > 0.5501] != 1.0e-5): fails.append(["henning", "not the liquid values beyond the window"])
+result = dict(failures=fails[:8], n=len(fails))
+'''
+
+
+def _replay_c19(ob, res):
+    """native run of the property's clauses for the family the failed obligation belongs to (public functions, sample inputs)"""
+    from tpv import native
+    out = native.run(dict(code=_C19_NATIVE), timeout=600)
+    rec = dict(replayed=True, native=out)
+    if "result" not in out:
+        rec["confirmed"] = True
+        rec["detail"] = "the real function raised on the sample inputs"
+        return rec
+    fam = "isotope" if "radiogenic" in ob.fn else ("convection" if "cooling" in ob.fn else ("reference" if "viscosity_models" in ob.fn else ("henning" if "melting" in ob.fn else "")))
+    hits = [f for f in out["result"]["failures"] if f[0] == fam or (fam == "reference" and f[0] == "arrhenius")]
+    rec["confirmed"] = bool(hits)
+    rec["family"] = fam
+    rec["detail"] = hits[:3]
     return rec
